@@ -4,7 +4,7 @@ from ref import pools, whitelist
 
 ID = "C16"
 LEVEL = "exploration"
-CONFIGS = {"quick": ["san", "mx_i64"], "thorough": ["san", "san_nv", "mx_i64"]}
+CONFIGS = {"quick": ["san", "san_nv", "mx_i64"], "thorough": ["san", "san_nv", "mx_i64"]}
 RULE = ("key counts 0..255 (every count <= 8 and 127/128/254/255, others sampled), every signer index for small n; honest signatures, signatures "
         "forged from public data only (the empty-ring string), reference-prover rings with small chosen scalars and their s+n re-encodings, single-bit "
         "flips, scalars := 0 / n, length +-1, count byte vs length, key lists permuted / one key replaced; zero and >= n secrets for the signer; every "
@@ -135,7 +135,7 @@ def wl_honest(ctx, config):
 
 def wl_sign_refusals(ctx, config):
     rng = ctx.rng
-    for it in range(ctx.n(60, 1500)):
+    for it in ctx.iters(60, 1500):
         nk = rng.randrange(1, 6); idx = rng.randrange(nk); K = Keys(ctx, config, nk, rng)
         summed = (K.off_sk[idx] + K.w) % n; osk = K.on_sk[idx]
         kind = it % 5
@@ -160,7 +160,7 @@ def wl_forged(ctx, config):
     """signatures built by the reference prover from chosen small scalars, and forgeries from public data only"""
     rng = ctx.rng
     # empty ring: 00 || SHA256(SHA256(ser33(W))) -- computable from public data (finding F1, fixed)
-    for it in range(ctx.n(16, 400)):
+    for it in ctx.iters(16, 400):
         K = Keys(ctx, config, rng.randrange(0, 3), rng)
         forged = b'\x00' + sha(sha(ser33(K.W)))
         exp = whitelist.verify(forged, [], [], K.W)
@@ -177,7 +177,7 @@ def wl_forged(ctx, config):
         if pr2 is not None and pr2.ret == 1:
             v2 = ctx.call("wl_verify_n", pr2.b(1), K.W_obj, K.W_obj, 0, K.W_obj, config=config)
             if v2 is not None: ctx.check(v2.ret == 0, "wl_verify:n_keys=0:accepted", "sig=%s" % junk.hex(), config)
-    for it in range(ctx.n(60, 1500)):
+    for it in ctx.iters(60, 1500):
         nk = rng.choice((1, 1, 2, 3, 4, 5, 8)); idx = rng.randrange(nk); K = Keys(ctx, config, nk, rng)
         forged = [rng.randrange(1, 2**100) for _ in range(nk)]
         sb = whitelist.forge_sign(K.on, K.off, K.W, idx, K.ring_secret(idx), forged, rng.randrange(1, n))
